@@ -13,6 +13,8 @@ import random
 from .. import gen, harness, oracles
 from ..world import SimWorld
 
+EVAL_COUNTER = "subruns"
+EVAL_UNIT = "one traced Pipeline.process call (a base pipeline's fault-free run or one enumerated (failure kind, node) sub-run)"
 LEVEL = "fault_enumeration"
 RULE = ("seeded base pipelines (1..8 nodes over the harness component library incl. sweeps, slicers, string "
         "shorthands); per base pipeline every applicable (failure kind x node index) pair is enumerated: leaf "
